@@ -16,5 +16,6 @@ c_Feeds == { [kind |-> "g", m |-> [g |-> Row(2, 1, 1, 1), l |-> Z, s |-> Z]],
              [kind |-> "gs", m |-> [g |-> Row(2, 2, 0, 1), l |-> Z, s |-> Row(0, 0, 1, 0)]] }
 c_X == {H, One}
 c_Xq == {H}
+c_HfVals == {-100}
 Depth == Len(path) <= 3
 =============================================================================
